@@ -645,6 +645,20 @@ func PointOn(obj interface{}, what string) {
 	e.yield(t, &pendingOp{kind: opPoint, what: what, obj: obj, branch: true})
 }
 
+// PointOnRW is PointOn with a read/write distinction (reads of a location that
+// nobody writes concurrently are not branching points).
+func PointOnRW(obj interface{}, what string, write bool) {
+	t := Current()
+	if t == nil {
+		return
+	}
+	e := Active()
+	if !e.touchObjRW(t, obj, write) {
+		return
+	}
+	e.yield(t, &pendingOp{kind: opPoint, what: what, obj: obj, branch: true})
+}
+
 // WaitUntil parks until ready() holds.
 func WaitUntil(obj interface{}, what string, ready func() bool) {
 	t := Current()
